@@ -258,16 +258,28 @@ def uniq(probs, limit_per_sig: int = 1) -> list:
 
 
 def print_trace(tr):
+    """Per tick: the tags whose visible value changed, the report (name, value, tick_time), and of a snapshot only the
+    (name, tick_time) pairs that differ from the previous snapshot."""
     print("program:")
     for ln in tr["lines"]:
         print("   ", ln)
     print(f"report period {tr['period']} tick(s); time(k) = {T0} + k*{DT}")
     prev = tr["baseline"]
+    prev_snap: dict = {}
     for rec in tr["ticks"]:
-        ch = {n: rec["direct"][n][0] for n in tr["names"] if rec["direct"][n][0] != prev[n][0] and n not in ("Clock", "Process Time", "Run Time")}
+        ch = {n: rec["direct"][n][0] for n in tr["names"]
+              if rec["direct"][n][0] != prev[n][0] and n not in ("Clock", "Process Time", "Run Time")}
         prev = rec["direct"]
-        print(f"tick {rec['n']:2d} t={rec['t']:.1f} {rec['state']:<9} changed(non-clock)={ch}")
-        if rec["report"] is not None:
-            print(f"      {rec['kind']} report: {[(r[0], r[1], r[2]) for r in rec['report']]}")
-        if rec["snapshot"] is not None:
-            print(f"      extra snapshot: {[(r[0], r[2]) for r in rec['snapshot']]}")
+        print(f"tick {rec['n']:2d} t={rec['t']:.1f} {rec['state']:<9} changed (clocks omitted) = {ch}")
+        for key in ("report", "snapshot"):
+            rep = rec[key]
+            if rep is None:
+                continue
+            kind = rec["kind"] if key == "report" else "snapshot"
+            if kind == "incremental":
+                print(f"      incremental report: {[(r[0], r[1], r[2]) for r in rep]}")
+            else:
+                snap = {r[0]: r[2] for r in rep}
+                diff = [(r[0], r[1], r[2]) for r in rep if prev_snap.get(r[0]) != r[2]]
+                print(f"      snapshot report: {len(rep)} tags; tick_time differs from the previous snapshot for {diff}")
+                prev_snap = snap
